@@ -291,6 +291,27 @@ func (d accountsDouble) ValidatingAccountsForEpochByIndex(_ context.Context, _ p
 		return nil, errors.New("scripted accounts failure")
 	case "none":
 		return map[phase0.ValidatorIndex]e2wtypes.Account{}, nil
+	case "miskeyed":
+		// a stale/buggy provider: exactly one account, another validator's, keyed
+		// under that other validator's index
+		res := map[phase0.ValidatorIndex]e2wtypes.Account{}
+		for _, i := range indices {
+			o := (uint64(i) + 1) % universe
+			res[phase0.ValidatorIndex(o)] = w.accounts[o]
+			break
+		}
+		return res, nil
+	case "extra":
+		// the requested account and, unasked, another validator's
+		res := map[phase0.ValidatorIndex]e2wtypes.Account{}
+		for _, i := range indices {
+			if uint64(i) < universe {
+				res[i] = w.accounts[i]
+			}
+			o := (uint64(i) + 1) % universe
+			res[phase0.ValidatorIndex(o)] = w.accounts[o]
+		}
+		return res, nil
 	}
 	res := map[phase0.ValidatorIndex]e2wtypes.Account{}
 	for _, i := range indices {
@@ -318,7 +339,10 @@ func (d signerDouble) SignRANDAOReveal(_ context.Context, acc e2wtypes.Account, 
 	w.mu.Lock()
 	defer w.mu.Unlock()
 	rc := randaoCall{seq: w.next(), account: acc, slot: uint64(slot)}
-	if w.c.Randao == "error" {
+	if acc == nil {
+		// a signer cannot sign for no account
+		rc.err = errors.New("no account specified")
+	} else if w.c.Randao == "error" {
 		rc.err = errors.New("scripted RANDAO failure")
 	} else {
 		fill(rc.sig[:], uint8(rc.seq), 50)
@@ -338,6 +362,8 @@ func (d signerDouble) SignBeaconBlockProposal(ctx context.Context, acc e2wtypes.
 	if err := ctx.Err(); err != nil {
 		// a remote signer is not reached with a context that has ended
 		sc.err, sc.dead = err, true
+	} else if acc == nil {
+		sc.err = errors.New("no account specified")
 	} else if w.c.SignErr {
 		sc.err = errors.New("scripted signing failure")
 	} else {
